@@ -583,7 +583,9 @@ class CaseGen:
 
     def add_outpath(self, c):
         r = self.r
-        if r.chance(1, 6):
+        # only where the ending is known by construction: with a failing output path the diagnostic
+        # (which the classifier would need) is not observable
+        if c.get('natural') is not None and r.chance(1, 5):
             c['outpath'] = r.choice(['isdir', 'dangling', 'devfull'])
 
     def add_names(self, c):
